@@ -25,9 +25,6 @@ MODIFIES = {
     # benign caches (C18-4): the three module globals are only rebound /
     # filled; nothing reachable from them is written (in particular the
     # shared default context is never handed to evaluate())
-    'yaql.eval': ['GLOBAL(_cached_engine):rebind',
-                  'GLOBAL(_cached_expressions):store []',
-                  'GLOBAL(_default_context):rebind'],
     L + 'contexts.Context.__delitem__': ['SELF'],
     L + 'contexts.Context.__setitem__': ['SELF'],
     L + 'contexts.Context.delete_function': ['SELF'],
@@ -104,6 +101,17 @@ MODIFIES = {
     'yaql.yaqlization.yaqlize': ['UNKNOWN'],
     'yaql.yaqlization.yaqlize.<locals>.func': ['UNKNOWN'],
 }
+# clauses attached to a MODULE: every function of the module (also one
+# added later, e.g. a helper extracted from eval()) may do exactly this to
+# exactly these globals - the clause follows the state, not the function
+MODULE_MODIFIES = {
+    # benign caches (C18-4): the three module globals of yaql/__init__.py
+    # are only rebound / filled; nothing reachable from them is written (in
+    # particular the shared default context is never handed to evaluate())
+    'yaql': ['GLOBAL(_cached_engine):rebind',
+             'GLOBAL(_cached_expressions):store []',
+             'GLOBAL(_default_context):rebind'],
+}
 # ply production callbacks p_*: write p[0] only
 P_RULES = ['PARAM(p)']
 # `register(context, ...)` functions of every stdlib module
@@ -124,6 +132,12 @@ MUTABLE_GLOBALS = {
 
 
 def modifies(key, qualname):
+    mod = key[:-len(qualname) - 1] if key.endswith('.' + qualname) else ''
+    extra = MODULE_MODIFIES.get(mod, [])
+    if extra:
+        # composed effects of same-module helpers on the same globals
+        extra = extra + [e.split(':')[0] + ':via' for e in extra]
+        return list(MODIFIES.get(key, [])) + extra
     if key in MODIFIES:
         return MODIFIES[key]
     last = qualname.split('.')[-1]
